@@ -1,5 +1,8 @@
 import Zeno.Proofs.Queue
 import Zeno.Gen.Queue
+import Zeno.Proofs.Pipeline
+import Zeno.Gen.Pipeline
+import Zeno.Gen.Item
 /-!
 # C15 — outlinks and finish acks reach the queue intact, despite queue errors
 
@@ -52,5 +55,18 @@ theorem c15_lq_other_ops_keep_unique (tbl : List Row) (h : ValuesNodup tbl) (n :
 /-- non-vacuity: three arrivals with batch size 2, a refused send, a tick -/
 example : (brun G true { size := 2 } [BOp.recv 1, .recv 2, .sendFail 0, .recv 3, .tick, .sendOk 0, .sendOk 0]).delivered
     = [[1, 2], [3]] := by decide
+
+/-- the finisher's exits as the pipeline model has them (facts regenerated from finisher.go and pipeline.go) -/
+theorem facts_ok_finisher : Zeno.Model.Pipeline.okFin Zeno.Gen.Pipeline.facts = true := by decide
+
+/-- **Every finished seed is acknowledged to the queue by its id**: when a finisher worker finds the seed it holds
+complete, the acknowledgement for exactly that id is emitted at that step and the seed leaves the pipeline —
+whatever else is in flight, whatever source the seed came from and however many passes it took. -/
+theorem c15_finished_seed_is_acknowledged (s : Zeno.Model.Pipeline.State) (id : String) (it : Zeno.Model.Pipeline.Item)
+    (t' : Zeno.Model.Item.Tree)
+    (hfind : s.items.find? (fun x => x.id == id && x.place == .fin) = some it)
+    (hf : Zeno.Model.Stages.finisher Zeno.Gen.Item.facts it.tree = (t', .finish)) :
+    (Zeno.Model.Pipeline.step Zeno.Gen.Pipeline.facts Zeno.Gen.Item.facts s (.finish id)).acks = (it.id, t') :: s.acks :=
+  (Zeno.Model.Pipeline.finish_acks _ _ facts_ok_finisher s id it t' hfind hf).1
 
 end Zeno.Props.C15
